@@ -30,6 +30,8 @@
 #include "celma/log/files/counted.hpp"
 #include "celma/log/files/handler.hpp"
 #include "celma/log/files/max_size.hpp"
+#include "celma/log/formatting/creator.hpp"
+#include "celma/log/formatting/format.hpp"
 
 #include "../sim/harness.hpp"
 #include "../sim/sched.hpp"
@@ -52,12 +54,13 @@ const char* const kFaultNames[] = { "mt_preemption", "mt_child_runs_first_at_cre
 enum ProbeId { P_run, P_counted, P_max_size, P_rollover_with_threads, P_generations_dropped, P_two_calls_overlapped,
                P_file_order_differs_from_call_order, P_waited_for_handler_lock, P_restart_on_full, P_restart_on_partly_filled,
                P_three_or_more_writers, P_crash_planned_but_not_reached, P_calls_in_flight_at_crash,
-               P_recovery_round_after_crash };
+               P_recovery_round_after_crash, P_with_dates };
 const char* const kProbeNames[] = { "mt_run", "mt_counted", "mt_max_size", "mt_rollover_while_threads_write",
                "mt_generations_dropped", "mt_two_message_calls_overlapped", "mt_file_order_differs_from_call_order",
                "mt_waited_for_handler_lock", "mt_restart_on_full_generation0", "mt_restart_on_partly_filled_generation0",
                "mt_three_or_more_writer_threads", "mt_crash_planned_but_not_reached",
-               "mt_message_calls_in_flight_at_crash", "mt_recovery_round_after_crash" };
+               "mt_message_calls_in_flight_at_crash", "mt_recovery_round_after_crash",
+               "mt_date_in_file_name_and_in_every_line" };
 
 class PlainFormat final: public celma::log::detail::IFormatStream
 {
@@ -94,6 +97,8 @@ void writer( celma::log::detail::ILogDest* dest, std::vector< Rec>* recs, size_t
       Rec&  r = (*recs)[ k];
       celma::log::detail::LogMsg  lm( "c15mt.cpp", "writer", static_cast< int>( k));
       lm.setText( r.text);
+      // (a recorded event: its own time stamp, formatted in front of the lock)
+      if ((k % 2) == 1) lm.setTimestamp( 946123200 + static_cast< time_t>( k));
       r.inv = nextEvent();
       try
       {
@@ -118,7 +123,7 @@ void warmUp()
    done = true;
    namespace lf = celma::log::files;
    namespace fn = celma::log::filename;
-   for (int pass = 0; pass < 2; ++pass)
+   for (int pass = 0; pass < 3; ++pass)
    {
       fs::reset();
       fs::mkdirs( "/simfs/logs");
@@ -131,13 +136,24 @@ void warmUp()
       {
          fn::Definition  def;
          fn::Creator     c( def);
-         c << std::string( "/simfs/logs/mt.") << fn::number;
+         if (pass == 2)
+            c << std::string( "/simfs/logs/mt-") << fn::date << std::string( ".") << fn::number;
+         else
+            c << std::string( "/simfs/logs/mt.") << fn::number;
          std::unique_ptr< celma::log::detail::ILogDest>  dest;
-         if (pass == 0)
+         if (pass != 1)
             dest.reset( new lf::Handler< lf::Counted, std::mutex>( new lf::Counted( def, 2, 2)));
          else
             dest.reset( new lf::Handler< lf::MaxSize, std::mutex>( new lf::MaxSize( def, 40, 2)));
-         dest->setFormatter( new PlainFormat());
+         if (pass == 2)
+         {
+            namespace lfo = celma::log::formatting;
+            lfo::Definition  fmt_def;
+            lfo::Creator     fmt_creator( fmt_def);
+            fmt_creator << lfo::date_time << "|" << lfo::text;
+            dest->setFormatter( new lfo::Format( fmt_def));
+         } else
+            dest->setFormatter( new PlainFormat());
          std::thread  t1( writer, dest.get(), &recs, size_t( 0), size_t( 3), nullptr);
          std::thread  t2( writer, dest.get(), &recs, size_t( 3), size_t( 3), nullptr);
          t1.join();
@@ -203,6 +219,7 @@ public:
       plan[ "threads"] = threads;
       plan[ "barrier"] = cfg.chance( 1, 2);
       plan[ "pad_seed"] = cfg.range( 0, 1000);
+      if (counted && cfg.chance( 1, 3)) plan[ "with_dates"] = true;
       Json  rounds = Json::array();
       const long long  nrounds = cfg.range( 1, 3);
       for (long long r = 0; r < nrounds; ++r)
@@ -253,10 +270,15 @@ public:
       const int        max_gen = static_cast< int>( std::max< long long>( 1, std::min< long long>( 6, plan.geti( "max_gen", 2))));
       const long long  threads = std::max< long long>( 1, std::min< long long>( 8, plan.geti( "threads", 2)));
       const bool       barrier = plan.geti( "barrier", 0) != 0;
-      const bool       default_formatter = false;   // it adds a line end of its own: one message = two lines
+      // date in the file name and a formatter with a date/time field: both format
+      // a time, one under the handler's lock, one in front of it (Counted only:
+      // the field does not fit the byte limits of this harness)
+      const bool       with_dates = plan.geti( "with_dates", 0) != 0 && counted;
+      const bool       default_formatter = with_dates;   // lines are "<date time>|<text>"
       const uint64_t   pad_seed = static_cast< uint64_t>( plan.geti( "pad_seed", 0));
       st.probe( counted ? P_counted : P_max_size);
       if (threads >= 3) st.probe( P_three_or_more_writers);
+      if (with_dates) st.probe( P_with_dates);
       std::vector< std::vector< size_t>>  counts;
       if (plan.get( "rounds").isArr())
          for (auto const& rj : plan.get( "rounds").arr())
@@ -305,6 +327,7 @@ public:
       mMaxGen = max_gen;
       mDefaultFormatter = default_formatter;
       mCrashed = false;
+      mWithDates = with_dates;
       mLongestInFlight = 0;
       bool  dropped = false;
       size_t  gens_on_disk = 0;
@@ -328,12 +351,23 @@ public:
          {
             fn::Definition  def;
             fn::Creator     c( def);
-            c << std::string( "/simfs/logs/mt.") << fn::number;
+            if (with_dates)
+               c << std::string( "/simfs/logs/mt-") << fn::date << std::string( ".") << fn::number;
+            else
+               c << std::string( "/simfs/logs/mt.") << fn::number;
             if (counted)
                dest.reset( new lf::Handler< lf::Counted, std::mutex>( new lf::Counted( def, mLimit, max_gen)));
             else
                dest.reset( new lf::Handler< lf::MaxSize, std::mutex>( new lf::MaxSize( def, mLimit, max_gen)));
-            if (!default_formatter) dest->setFormatter( new PlainFormat());
+            if (with_dates)
+            {
+               namespace lfo = celma::log::formatting;
+               lfo::Definition  fmt_def;
+               lfo::Creator     fmt_creator( fmt_def);
+               fmt_creator << lfo::date_time << "|" << lfo::text;
+               dest->setFormatter( new lfo::Format( fmt_def));
+            } else
+               dest->setFormatter( new PlainFormat());
          } catch (const std::exception& e)
          {
             res.fail( "VIOLATION", "I0-open", std::string( "round ") + std::to_string( r) + ": the log destination could not be created: " + e.what());
@@ -438,9 +472,14 @@ private:
    int     mMaxGen = 2;
    bool    mDefaultFormatter = false;
    bool    mCrashed = false;
+   bool    mWithDates = false;
    size_t  mLongestInFlight = 0;
 
-   static std::string fileName( int gen) { return "/simfs/logs/mt." + std::to_string( gen); }
+   std::string fileName( int gen) const
+   {
+      // (the simulated clock stands at 2023-11-14 for the whole run)
+      return std::string( mWithDates ? "/simfs/logs/mt-2023-11-14." : "/simfs/logs/mt.") + std::to_string( gen);
+   }
 
    static size_t lineCount( const std::string& s)
    {
